@@ -257,13 +257,14 @@ impl MReader {
         let mut fuel = LIMIT;
         loop {
             if fuel == 0 { return Out::Livelock; } fuel -= 1;
-            if self.input_len < self.buf.len() && !self.eof {
+            while self.input_len < self.buf.len() && !self.eof {
                 self.buf_acc += 2;
                 match retry_read(&mut self.src, self.buf.len() - self.input_len) {
                     Err(c) => return Out::Done(Err(MErr::Inner(c))),
                     Ok(bs) => if bs.is_empty() { self.eof = true; } else { self.buf[self.input_len..self.input_len + bs.len()].copy_from_slice(&bs); self.input_len += bs.len(); }
                 }
-            } else { self.buf_acc += 1; }
+            }
+            self.buf_acc += 1;
             if self.input_len < self.input_offset { return Out::Panic; }
             let avail = self.input_len - self.input_offset;
             let op = if avail == 0 { Op::X } else { Op::P };
@@ -292,9 +293,11 @@ fn mirror_copy(ib: usize, ob: usize, enc: &mut Shadow, src: &mut ScriptedRead, s
         if fuel == 0 { return Out::Livelock; } fuel -= 1;
         if avail_in == 0 && !eof {
             next_in = 0;
-            match retry_read(src, ib) {
-                Err(c) => { read_err = Some(MErr::Inner(c)); avail_in = 0; eof = true; }
-                Ok(bs) => { if bs.is_empty() { eof = true; } ibuf[..bs.len()].copy_from_slice(&bs); avail_in = bs.len(); }
+            while avail_in < ib && !eof {
+                match retry_read(src, ib - avail_in) {
+                    Err(c) => { read_err = Some(MErr::Inner(c)); eof = true; }
+                    Ok(bs) => { if bs.is_empty() { eof = true; } ibuf[avail_in..avail_in + bs.len()].copy_from_slice(&bs); avail_in += bs.len(); }
+                }
             }
         }
         let op = if avail_in == 0 { Op::X } else { Op::P };
